@@ -302,6 +302,204 @@ class _Run:
         return (size, p, top_h, total)
 
 
+def item_label(idx: int, n_tokens: int) -> str:
+    """Text of list item idx: tokens that all carry the item number, so that every rendered row of the
+    list names its item and its place in it whatever the width."""
+    return " ".join(f"{idx:02d}{chr(97 + j)}" for j in range(n_tokens))
+
+
+class _ListRun(_Run):
+    """ScrollBar over a ListBox (absolute scrolling for short lists, the relative protocol for long ones).
+
+    The first visible row p is read off the rendered view itself: every row of every item is unique, the
+    view must be a contiguous slice of the items rendered at the width the ListBox is supposed to get."""
+
+    def run(self) -> str:  # noqa: C901, PLR0912, PLR0915
+        import urwid  # noqa: PLC0415
+
+        scen, res = self.scen, self.res
+        cfg = scen["config"]
+        urwid.util.set_encoding("utf-8")
+        urwid.CanvasCache.clear()
+        self.next_idx = 0
+        walker = urwid.SimpleFocusListWalker([self.make_item(n, sel) for n, sel in cfg["inner"]["items"]])
+        lb = self.lb = urwid.ListBox(walker)
+        bw = self.bw = cfg["bar"].get("width", 1)
+        bar = self.bar = urwid.ScrollBar(lb, side=cfg["bar"].get("side", "right"), width=bw)
+        self.sizes_seen = []
+        orig_render = lb.render
+
+        def rec_render(sz, focus=False):
+            self.sizes_seen.append(tuple(sz))
+            return orig_render(sz, focus)
+
+        lb.render = rec_render
+        self.kp_sizes = []
+        orig_kp = lb.keypress
+
+        def rec_keypress(sz, key):
+            self.kp_sizes.append(tuple(sz))
+            return orig_kp(sz, key)
+
+        lb.keypress = rec_keypress
+        size = tuple(cfg["size"])
+        focus = True
+        last = None
+        rendered_size = None  # (size, child size) of the last render, None after a resize
+        self.log.add("cfg", [repr(cfg["inner"])[:200], list(size), repr(cfg.get("bar"))])
+        for i, op in enumerate(scen["ops"]):
+            k = op["op"]
+            try:
+                if k == "key":
+                    key = KEYS[op["k"] % len(KEYS)]
+                    self.kp_sizes.clear()
+                    rv = bar.keypress(size, key)
+                    self.log.add("key", [key, repr(rv)])
+                    if rv is not None and rv != key:
+                        self.violate("C20.3", "keypress-returned-a-different-key", f"{key!r} -> {rv!r}")
+                    if rendered_size is not None and rendered_size[0] == size and self.kp_sizes and self.kp_sizes[0] != rendered_size[1]:
+                        self.violate("C20.2", "wrapped-widget-got-key-at-a-size-it-was-not-rendered-at", f"step {i}: key {key!r} forwarded with size {self.kp_sizes[0]}, rendered at {rendered_size[1]}")
+                        break
+                elif k == "wheel":
+                    btn = 4 if op.get("up") else 5
+                    rv = bar.mouse_event(size, "mouse press", btn, op.get("x", 0) % size[0], op.get("y", 0) % size[1], focus)
+                    self.log.add("wheel", [btn, repr(rv)])
+                elif k == "click":
+                    rv = bar.mouse_event(size, "mouse press", 1, op.get("x", 0) % size[0], op.get("y", 0) % size[1], focus)
+                    self.log.add("click", [op.get("x", 0) % size[0], op.get("y", 0) % size[1], repr(rv)])
+                elif k == "setpos":
+                    if len(walker):
+                        walker.set_focus(op["p"] % len(walker))
+                        self.log.add("set_focus", op["p"] % len(walker))
+                    last = None
+                elif k == "resize":
+                    size = tuple(op["size"])
+                    self.log.add("resize", list(size))
+                    res.fault("resize")
+                    last = None
+                    rendered_size = None
+                elif k == "content":
+                    if op.get("grow", True):
+                        walker.append(self.make_item(1 + op.get("n", 1) % 5, op.get("i", 0) % 2 == 0))
+                    elif len(walker) > 1:
+                        del walker[op.get("i", 0) % len(walker)]
+                    self.log.add("content", ["list", len(walker)])
+                    last = None
+                elif k == "focus":
+                    focus = bool(op.get("on", True))
+                elif k == "render":
+                    last, child = self.check_list_render(i, size, focus, last)
+                    rendered_size = (size, child) if child is not None else None
+                    if res.violations:
+                        break
+            except Exception as e:  # noqa: BLE001
+                if core.raised_in_harness(e):
+                    raise core.HarnessError(f"harness exception in op {op}: {core.format_exc(e)}") from e
+                self.violate("C20.1", f"{k}-raised:{core.exc_signature(e)}", f"step {i} {op} size {size}: {core.format_exc(e)}")
+                break
+        urwid.CanvasCache.clear()
+        return self.log.digest()
+
+    def make_item(self, n_tokens: int, selectable: bool):
+        import urwid  # noqa: PLC0415
+
+        idx = self.next_idx
+        self.next_idx += 1
+        label = item_label(idx, n_tokens)
+        return urwid.SelectableIcon(label, 0) if selectable else urwid.Text(label)
+
+    def check_list_render(self, i, size, focus, last):  # noqa: C901, PLR0912
+        res = self.res
+        cols, rows = size
+        lb, bar, bw = self.lb, self.bar, self.bw
+        if cols - bw < 3:  # a token of an item label no longer fits on a row: rows stop being unique
+            res.probe("no_room_for_wrapped_widget")
+            return None, None
+        items = list(lb.body)
+        self.sizes_seen.clear()
+        canv = bar.render(size, focus)
+        if (canv.cols(), canv.rows()) != (cols, rows):
+            self.violate("C20.2", "scrollbar-canvas-has-wrong-size", f"step {i}: size {size}, canvas {canv.cols()}x{canv.rows()}")
+            return None, None
+        got = [row_text(r) for r in content_rows(canv)]
+        total_wide = sum(w.rows((cols,), False) for w in items)
+        has_bar = total_wide > rows
+        relative = len(items) > 3 * rows
+        child_cols = cols - bw if has_bar else cols
+        child = (child_cols, rows)
+        self.log.add("render", [list(size), focus, len(items), total_wide, has_bar, relative])
+        if relative:
+            res.probe("listbox_relative_scrolling")
+        # the wrapped widget receives the view width minus the bar width (its last render is the one shown)
+        if not self.sizes_seen or self.sizes_seen[-1] != child:
+            self.violate("C20.2", "wrapped-widget-rendered-at-wrong-size", f"step {i} size {size}: content rows at full width {total_wide}, bar {'needed' if has_bar else 'not needed'}, ListBox rendered at {self.sizes_seen[-1:]}")
+            return None, None
+        if has_bar:
+            res.probe("scrollbar_drawn_over_listbox")
+            if self.scen["config"]["bar"].get("side", "right") == "right":
+                bar_col = [t[child_cols:] for t in got]
+                view = [t[:child_cols] for t in got]
+            else:
+                bar_col = [t[:bw] for t in got]
+                view = [t[bw:] for t in got]
+        else:
+            res.probe("scrollbar_not_needed")
+            bar_col = None
+            view = got
+            if any(THUMB in t for t in got):
+                self.violate("C20.2", "scrollbar-drawn-although-content-fits", f"step {i} size {size} total {total_wide}")
+                return None, None
+        # read the first visible row off the view
+        F = []
+        for w in items:
+            F.extend(t.rstrip() for t in (row_text(r) for r in content_rows(w.render((child_cols,), False))))
+        total = len(F)
+        shown = [t.rstrip() for t in view]
+        while shown and not shown[-1]:
+            shown.pop()
+        p = None
+        if shown:
+            for q in range(total - len(shown) + 1):
+                if F[q : q + len(shown)] == shown:
+                    p = q
+                    break
+            if p is None:
+                self.violate("C20.2", "listbox-view-is-not-a-slice-of-the-items-at-the-child-width", f"step {i} size {size} child width {child_cols}: shown {shown[:4]!r}...")
+                return None, None
+        elif total:
+            self.violate("C20.2", "listbox-view-empty-although-list-has-rows", f"step {i} size {size}")
+            return None, None
+        else:
+            p = 0
+        res.states.add(f"ListBox/{relative}/{has_bar}/{p == 0}/{p is not None and p + rows >= total}/{focus}")
+        top_h = None
+        if has_bar:
+            col = "".join(c[0] if c else " " for c in bar_col)
+            if any(len(c) != bw for c in bar_col):
+                self.violate("C20.2", "scrollbar-width-wrong", f"step {i}: {bar_col!r}")
+                return None, None
+            first, lastt = col.find(THUMB), col.rfind(THUMB)
+            if first < 0:
+                self.violate("C20.2", "scrollbar-has-no-thumb", f"step {i} size {size}: {col!r}")
+                return None, None
+            if set(col[first : lastt + 1]) != {THUMB} or set(col[:first] + col[lastt + 1 :]) - {" "}:
+                self.violate("C20.2", "scrollbar-thumb-not-contiguous", f"step {i}: {col!r}")
+                return None, None
+            top_h, thumb_h = first, lastt - first + 1
+            mode = "relative" if relative else "absolute"
+            if (top_h == 0) != (p == 0) and thumb_h < rows:
+                if relative and top_h == 0 and items and p < items[0].rows((child_cols,), False):
+                    # the relative protocol counts items, not rows (known finding)
+                    mode += " [first-item-partly-scrolled-out]"
+                self.violate("C20.2", f"thumb-at-top-iff-first-row-visible-violated listbox-{mode}", f"step {i} size {size}: first visible row {p} of {total}, top part {top_h} ({col!r})")
+                return None, None
+            if last is not None and last[0] == size and last[3] == total and last[2] is not None and p >= last[1] and top_h < last[2]:
+                self.violate("C20.2", f"thumb-moved-up-although-position-did-not-decrease listbox-{mode}", f"step {i}: first visible row {last[1]} -> {p}, top part {last[2]} -> {top_h}")
+                return None, None
+            res.probe("listbox_bar_geometry_checked")
+        return (size, p, top_h, total), child
+
+
 class ScrollEngine(Engine):
     prop = P
     name = "widgets-scroll"
@@ -318,13 +516,16 @@ class ScrollEngine(Engine):
         "the full rendering used as the model is the wrapped widget's own render at the child width (text layout is C03's business)",
         "after a key the wrapped widget handled, the position may still change to bring the moved cursor into view",
         "views narrower than the scrollbar are skipped (no room for the wrapped widget)",
-        "ListBox under ScrollBar (relative scrolling protocol) is not generated yet",
+        "ListBox under ScrollBar: the first visible row is read off the rendered view (every row of every item is unique); items have at least one row",
     ]
     components = {"real": ["Scrollable, ScrollBar, Pile/Text/Edit/Button/Divider, canvas trimming"], "stub": [], "driven": ["batching of actions before a render", "resize placement"]}
-    required_probes = ("two_actions_before_one_render", "negative_position", "content_shrinks_below_view", "one_row_view", "cursor_scrolled_out_of_view", "scrollbar_drawn", "scrollbar_not_needed", "key_handled_by_wrapped_widget")
+    required_probes = ("two_actions_before_one_render", "negative_position", "content_shrinks_below_view", "one_row_view", "cursor_scrolled_out_of_view", "scrollbar_drawn", "scrollbar_not_needed", "key_handled_by_wrapped_widget", "listbox_relative_scrolling", "listbox_bar_geometry_checked")
     reducible = ("ops",)
 
     def generate(self, rng: random.Random, tier: str) -> dict:
+        r = rng.random()
+        if r < 0.3:
+            return self.generate_list(rng)
         r = rng.random()
         if r < 0.45:
             n = rng.choice([0, 1, 2, 5, 12, 30])
@@ -370,9 +571,38 @@ class ScrollEngine(Engine):
         ops.append({"op": "render"})
         return {"config": cfg, "ops": ops}
 
+    def generate_list(self, rng: random.Random) -> dict:
+        """ScrollBar over a ListBox: short lists scroll by rows, lists longer than three screens by item."""
+        n = rng.choice([1, 3, 6, 10, 16, 25, 40, 40, 60])
+        mx = rng.choice([1, 2, 4, 6])
+        items = [[rng.randint(1, mx), rng.random() < 0.6] for _ in range(n)]
+        size = [rng.choice([5, 6, 8, 12, 20]), rng.choice([1, 2, 4, 7, 12])]
+        cfg = {"inner": {"k": "listbox", "items": items}, "size": size, "bar": {"side": rng.choice(["left", "right"]), "width": rng.choice([1, 1, 2])}}
+        ops = [{"op": "render"}]
+        for _ in range(rng.randint(1, 30)):
+            q = rng.random()
+            if q < 0.40:
+                ops.append({"op": "key", "k": rng.choice([0, 1, 1, 2, 3, 3, 3, 4, 5, 5, 6, 9])})
+            elif q < 0.50:
+                ops.append({"op": "wheel", "up": rng.random() < 0.4, "x": rng.randrange(20), "y": rng.randrange(12)})
+            elif q < 0.54:
+                ops.append({"op": "click", "x": rng.randrange(20), "y": rng.randrange(12)})
+            elif q < 0.60:
+                ops.append({"op": "setpos", "p": rng.randrange(40)})
+            elif q < 0.66:
+                ops.append({"op": "resize", "size": [rng.choice([5, 6, 7, 8, 12, 20]), rng.choice([1, 2, 4, 7, 12])]})
+            elif q < 0.70:
+                ops.append({"op": "content", "n": rng.randrange(6), "grow": rng.random() < 0.5, "i": rng.randrange(40)})
+            elif q < 0.72:
+                ops.append({"op": "focus", "on": rng.random() < 0.7})
+            else:
+                ops.append({"op": "render"})
+        ops.append({"op": "render"})
+        return {"config": cfg, "ops": ops}
+
     def execute(self, scen: dict) -> Result:
         res = Result()
-        run = _Run(scen, res)
+        run = (_ListRun if scen["config"]["inner"]["k"] == "listbox" else _Run)(scen, res)
         res.digest = run.run()
         ops = [o["op"] for o in scen["ops"]]
         if ops.count("render") >= 2 and any(o in ("key", "wheel", "setpos", "resize") for o in ops):
@@ -383,9 +613,15 @@ class ScrollEngine(Engine):
 
     def simplify(self, scen: dict):
         cfg = scen["config"]
+        inner = cfg["inner"]
+        if inner["k"] == "listbox":
+            its = inner["items"]
+            if len(its) > 1:
+                yield dict(scen, config=dict(cfg, inner=dict(inner, items=its[: len(its) // 2])))
+                yield dict(scen, config=dict(cfg, inner=dict(inner, items=its[:-1])))
+            return
         if cfg.get("bar"):
             yield dict(scen, config={k: v for k, v in cfg.items() if k != "bar"})
-        inner = cfg["inner"]
         if inner["k"] == "pile" and len(inner["items"]) > 1:
             for i in range(len(inner["items"])):
                 yield dict(scen, config=dict(cfg, inner=dict(inner, items=inner["items"][:i] + inner["items"][i + 1 :])))
